@@ -130,6 +130,8 @@ type mop struct {
 	IsDelete bool
 	Order    []string
 	// merge classification
+	Empty      bool  // compaction with an empty result: only the parents are deleted
+	Parents    []int
 	MixedMerge bool
 	RenameHit  int // index (in the semantic-hit sequence) of this op's BlkRename, -1 if none
 }
@@ -242,6 +244,9 @@ func buildOps(w *Workload, rl *runLog) (ops []mop, hist []string, accepted map[i
 			var curMerge *mop
 			flush := func() {
 				if curMerge != nil {
+					if curMerge.Empty {
+						curMerge.Text = "omerge " + listInts(curMerge.Parents)
+					}
 					curMerge.Text = fmt.Sprintf("%s %s", curMerge.Text, gallina.List(curMerge.Order))
 					ops = append(ops, *curMerge)
 					curMerge = nil
@@ -295,9 +300,14 @@ func buildOps(w *Workload, rl *runLog) (ops []mop, hist []string, accepted map[i
 						lastCut = bi.MaxT
 					}
 				case kBlkToDel:
-					if curMerge != nil {
-						if id, ok := ids[h.Payload]; ok {
-							curMerge.Order = append(curMerge.Order, fmt.Sprintf("tb %d", id))
+					if curMerge == nil {
+						// parents deleted without a new block: the compaction result was empty
+						curMerge = &mop{API: api, Empty: true, RenameHit: -1}
+					}
+					if id, ok := ids[h.Payload]; ok {
+						curMerge.Order = append(curMerge.Order, fmt.Sprintf("tb %d", id))
+						if curMerge.Empty {
+							curMerge.Parents = append(curMerge.Parents, id)
 						}
 					}
 				}
